@@ -69,7 +69,140 @@ pub fn run(tier: &str) -> Result<Report, String> {
         let b = by_name(&nets, name);
         sem::ops_sweep(&mut rep, &b, &forms, true, ck);
     }
+    // wide models (more than 2^53 states, so that a size-based comparison cannot see a step that adds a handful of
+    // states): weak until on arguments made of two / three consecutive states of a deterministic chain, against the
+    // defining equivalences and against closed forms; one child process per (model, case)
+    {
+        use rayon::prelude::*;
+        let models = ["synthetic:chain60", "synthetic:chain70", "synthetic:chain58p"];
+        let jobs: Vec<serde_json::Value> = models.iter().flat_map(|m| (0..WIDE_CASES).map(move |c| json!({"kind": "c13big", "model": m, "case": c}))).collect();
+        let limit = if tier == "quick" { 40.0 } else { 600.0 };
+        let results: Vec<(serde_json::Value, crate::jobs::JobResult)> = jobs.par_iter().map(|j| (j.clone(), crate::jobs::run(j, limit))).collect();
+        let mut wide = vec![];
+        for (j, r) in results {
+            match r {
+                crate::jobs::JobResult::Done(v) => {
+                    if let Some(e) = v.get("error") {
+                        return Err(format!("wide model job {j}: {e}"));
+                    }
+                    rep.evaluations += v["evaluations"].as_u64().unwrap_or(0);
+                    rep.add_count("wide_model_cases", 1);
+                    for p in v["problems"].as_array().cloned().unwrap_or_default() {
+                        rep.violations.push(crate::report::Violation { case: j.clone(), what: format!("on {} ({}): {}", j["model"].as_str().unwrap_or(""), v["describe"].as_str().unwrap_or(""), p.as_str().unwrap_or("")), size: 50 });
+                    }
+                    wide.push(json!({"model": j["model"], "case": v["describe"], "bdd_variables": v["bdd_variables"]}));
+                }
+                crate::jobs::JobResult::Timeout => rep.cap(format!("job {j} exceeded {limit}s and was stopped (no verdict)")),
+                crate::jobs::JobResult::Crashed(e) => return Err(format!("wide model job {j} crashed: {e}")),
+            }
+        }
+        rep.set("wide_models", json!(wide));
+    }
     rep.set("slices", json!(slices));
-    rep.rule = "all closed formulae up to max_nodes nodes over all operators that contain EW or AW, plus 6 formulae with EW and AW over the same operands and 18 template formulae in which EW / AW sub-formulae occur twice up to renaming (one / two free variables, mirrored roles, different depths), on the core networks, compared point-wise with the oracle's E[a W b] = E[a U b] or EG a and A[a W b] = not E[not b U (not a and not b)]; plus EW/AW (and their defining right-hand sides) on every pair of coloured sets of tiny networks as wild-card arguments".into();
+    rep.rule = "all closed formulae up to max_nodes nodes over all operators that contain EW or AW, plus 6 formulae with EW and AW over the same operands and 18 template formulae in which EW / AW sub-formulae occur twice up to renaming (one / two free variables, mirrored roles, different depths), on the core networks, compared point-wise with the oracle's E[a W b] = E[a U b] or EG a and A[a W b] = not E[not b U (not a and not b)]; plus EW/AW (and their defining right-hand sides) on every pair of coloured sets of tiny networks as wild-card arguments; plus, on shift registers with 58..70 variables (more than 2^53 states; child processes), EW / AW on arguments made of two or three consecutive states of the deterministic chain (with an empty target, the next state as target, a far state as target, the complement as first argument) against the defining equivalences and closed forms".into();
     Ok(rep)
+}
+
+pub const WIDE_CASES: usize = 6;
+
+/// Child job: weak until on a shift register `x00 -> x01 -> ...` (x00 frozen) with more than 2^53 states. The state
+/// `prefix(k)` (x00..xk true, the rest false) has exactly one successor, `prefix(k+1)`; arguments are built from a few such states.
+pub fn job(job: &serde_json::Value) -> serde_json::Value {
+    use biodivine_hctl_model_checker::model_checking as mc;
+    use biodivine_lib_param_bn::biodivine_std::traits::Set;
+    use biodivine_lib_param_bn::symbolic_async_graph::GraphColoredVertices;
+    use std::collections::HashMap;
+    let model = job["model"].as_str().unwrap_or("");
+    let case = job["case"].as_u64().unwrap_or(0) as usize;
+    let big = match crate::bigmodels::load(model, 0) {
+        Ok(b) => b,
+        Err(e) => return json!({"error": e}),
+    };
+    let g = &big.graph;
+    let vars: Vec<_> = g.variables().collect();
+    let n = vars.len();
+    // on chain58p the last variable has an unknown update function: stay away from it
+    let prefix = |k: usize| -> GraphColoredVertices {
+        let vals: Vec<_> = vars.iter().enumerate().map(|(i, v)| (*v, i <= k)).collect();
+        g.mk_subspace(&vals)
+    };
+    let empty = g.mk_empty_colored_vertices();
+    let unit = g.mk_unit_colored_vertices();
+    let k = 20usize;
+    assert!(k + 6 < n - 1);
+    // (description, p, q, closed form of `p EW q`, closed form of `p AW q`)
+    let two = prefix(k).union(&prefix(k + 1));
+    let three = two.union(&prefix(k + 2));
+    let (describe, p, q, ew, aw): (&str, GraphColoredVertices, GraphColoredVertices, Option<GraphColoredVertices>, Option<GraphColoredVertices>) = match case {
+        0 => ("p = two consecutive chain states, q empty", two.clone(), empty.clone(), Some(empty.clone()), Some(empty.clone())),
+        1 => ("p = three consecutive chain states, q empty", three.clone(), empty.clone(), Some(empty.clone()), Some(empty.clone())),
+        2 => ("p = two consecutive chain states, q = the next one", two.clone(), prefix(k + 2), Some(three.clone()), Some(three.clone())),
+        3 => ("p = three consecutive chain states, q = a state two steps further", three.clone(), prefix(k + 4), Some(prefix(k + 4)), Some(prefix(k + 4))),
+        4 => ("p = everything but two consecutive chain states, q empty", unit.minus(&two), empty.clone(), None, None),
+        _ => ("p = three consecutive chain states, q = everything but five chain states", three.clone(), unit.minus(&three.union(&prefix(k + 3)).union(&prefix(k + 4))), None, None),
+    };
+    // with an unknown update function of the last variable a chain state has a second successor in some colours: the
+    // universal closed forms hold on the fully specified registers only
+    let aw = if model.ends_with('p') { None } else { aw };
+    let ctx: HashMap<String, GraphColoredVertices> = HashMap::from([("p".to_string(), p.clone()), ("q".to_string(), q.clone())]);
+    let mut problems: Vec<String> = vec![];
+    let mut evaluations = 0u64;
+    let mut eval = |t: &str| -> Option<GraphColoredVertices> {
+        evaluations += 1;
+        match crate::report::guarded(std::panic::AssertUnwindSafe(|| mc::model_check_extended_formula_dirty(t, g, &ctx))) {
+            Ok(Ok(s)) => Some(s),
+            Ok(Err(e)) => {
+                problems.push(format!("{t}: Err({e})"));
+                None
+            }
+            Err(pn) => {
+                problems.push(format!("{t}: panic({pn})"));
+                None
+            }
+        }
+    };
+    let got_ew = eval("%p% EW %q%");
+    let got_aw = eval("%p% AW %q%");
+    let def_ew = eval("(%p% EU %q%) | EG %p%");
+    let def_aw = eval("~ ((~ %q%) EU ((~ %p%) & (~ %q%)))");
+    let dual_ew = eval("~ ((~ %q%) AU ((~ %p%) & (~ %q%)))");
+    let au_or_ag = eval("(%p% AU %q%) | AG %p%");
+    let mut cmp = |what: &str, a: &Option<GraphColoredVertices>, b: &Option<GraphColoredVertices>| {
+        if let (Some(a), Some(b)) = (a, b) {
+            if a != b {
+                let (x, y) = (a.minus(b), b.minus(a));
+                problems.push(format!("{what}: the two sets differ (only in the first: {} elements, only in the second: {})", x.exact_cardinality(), y.exact_cardinality()));
+            }
+        }
+    };
+    cmp("`p EW q` vs `(p EU q) | EG p`", &got_ew, &def_ew);
+    cmp("`p AW q` vs `~((~q) EU (~p & ~q))`", &got_aw, &def_aw);
+    cmp("`p EW q` vs `~((~q) AU (~p & ~q))`", &got_ew, &dual_ew);
+    cmp("`p EW q` vs its closed form", &got_ew, &ew);
+    cmp("`p AW q` vs its closed form", &got_aw, &aw);
+    // on a deterministic chain A[p U q] | AG p is included in A[p W q] (and equals it where every state has one successor)
+    if let (Some(a), Some(b)) = (&au_or_ag, &got_aw) {
+        if !a.is_subset(b) {
+            problems.push("`(p AU q) | AG p` is not included in `p AW q`".to_string());
+        }
+    }
+    if let (Some(a), Some(b)) = (&got_aw, &got_ew) {
+        if !a.is_subset(b) {
+            problems.push("`p AW q` is not included in `p EW q`".to_string());
+        }
+    }
+    json!({"describe": describe, "problems": problems, "evaluations": evaluations, "bdd_variables": g.symbolic_context().bdd_variable_set().num_vars()})
+}
+
+pub fn replay_big(case: &serde_json::Value) -> Option<String> {
+    let v = job(case);
+    if let Some(e) = v.get("error") {
+        return Some(format!("job error: {e}"));
+    }
+    let p = v["problems"].as_array()?;
+    if p.is_empty() {
+        None
+    } else {
+        Some(p.iter().filter_map(|x| x.as_str()).collect::<Vec<_>>().join(" | "))
+    }
 }
